@@ -1,5 +1,24 @@
-"""U-LEXA: the alpha (first generation, char/String based) lexer src/alpha/lexer.rs: lex_line, parse_integer_suffix,
-is_identifier_continuation (C14 span bookkeeping, C09 escape decoding / integer literal values)."""
+r"""U-LEXA: the alpha (first generation, &str/char/String based) lexer src/alpha/lexer.rs, whole functions, unbounded:
+lex, lex_line, parse_integer_suffix, is_identifier_continuation.
+
+C14  span bookkeeping protocol of lex_line (start/end track the characters consumed, every pushed token - also the
+     early-exit error token of a quoted literal - lies on the given line with a well formed span, spans increasing),
+     the same across lines in lex; words (34 reserved words + `_`, builtins, identifiers), punctuation (longest match),
+     rejected characters.
+C09  value of character/string literals against a declarative element grammar (\n \r \t \\ \' \" \0, \xHH = the single
+     byte, \u{..} = UTF-8 of the scalar, graphic ASCII, non-ASCII = UTF-8); integer literals (decimal, 0x, 0b, `_`
+     separators, value == positional value of the digits, E140 iff beyond 128 bits, the eleven suffixes, E141 otherwise).
+
+Rules (units/u_lexa_rules.py): RA5 chars().enumerate().peekable() -> CharPeekIter (verified shim over vstd's
+unicode_len/get_char), RA6 by-value peek patterns, RA7 string-literal patterns -> `_ if X == "lit"` guards, RA8 char::to_string
+-> trusted wrapper, RA9 hoist the temporary of `for b in x.to_string().as_bytes()`, RA10 str::parse::<u128> -> trusted
+wrapper, RA11 `for (i, line) in s.lines().enumerate()` -> collected lines + index loop, RA12 chars().count() -> unicode_len,
+RA13 str::len -> trusted wrapper; R18 (vlib) type annotations for `tokens` / `offset`.
+Trusted (prelude/lexa_std.rs): char::{is_ascii_hexdigit, is_ascii_digit, is_digit, is_ascii_graphic, is_ascii, from_u32,
+encode_utf8}, {u8,u32,u128}::from_str_radix on digit strings, str::parse::<u128>, char::to_string, String::{len, as_bytes},
+str::len, str::lines (only: sum of (chars+1) <= chars of the source + 1; "" has no lines; a str has <= isize::MAX chars),
+derived Clone of Location is the identity, ParseIntError as an opaque type; vstd's own str/String/Vec/Option/Result specs.
+contracts/u_lexa.vc is static text (the repeated invariant blocks were typed once with a throw-away script)."""
 from vlib import rules
 from units import u_lexa_rules as LR
 AL = 'src/alpha/lexer.rs'
